@@ -1,9 +1,75 @@
-(* C10 — theorems are added below as the proofs are completed; see DESIGN.md *)
+(* C10 — results are covariant with amplitude and sampling-rate units.
+   Model: Model/Features.v (compute_features c raw k b m).
+
+   Sampling-rate part: fs and f_range are NOT arguments of any model function — the model's
+   result is, by its type, a function of (centre, samples, kernel outputs, boundary, method);
+   every time feature is an integer number of samples.  fs / f_range enter only through the
+   reference kernels (sign bits of the band-pass, envelope, detector mask), which the harness
+   recomputes at 8 sampling rates and compares cell by cell on every run.
+
+   Amplitude part (partial, stated precisely): binary64 scaling is exact only absent overflow /
+   underflow / rounding, so covariance is proved relative to a CHECKABLE hypothesis: the scaling
+   map s commutes, on the finitely many values that actually occur, with the handful of float
+   operations the model applies (c10_hypb, a boolean evaluated on the concrete input).  Under it
+   the whole table is covariant.  The hypothesis holds for powers of two (examples) and is
+   necessary: with factor 3 a consistency value changes in the last bit.  The band-pass kernel is
+   assumed linear (same sign bits for the scaled signal): k_pos k' = k_pos k. *)
 From Coq Require Import List Arith Bool ZArith Floats.PrimFloat.
 Import ListNotations.
-From ByC Require Import Base.Result Model.Cycles Model.Labels.
+From ByC Require Import Base.Result Model.Extrema Model.Zerox Model.Cycles Model.Features Proofs.Scale.
 
-Theorem C10_placeholder_period_is_next_minus_last : forall sigc amp r,
-  period (shape_of sigc amp r) = (s_next r - s_last r)%Z.
-Proof. reflexivity. Qed.
-Print Assumptions C10_placeholder_period_is_next_minus_last.
+(* every sample index, duration, symmetry, consistency, monotonicity, amplitude fraction and
+   label is unchanged; every voltage feature is mapped by s; errors coincide *)
+Theorem C10_table_covariant_under_checked_scaling : forall c s raw k' k b m,
+  c10_hypb c s raw k b m = true -> k_pos k' = k_pos k -> k_padn k' = k_padn k ->
+  features_rel s (compute_features c (map s raw) k' b m) (compute_features c raw k b m).
+Proof. exact c10_checked. Qed.
+Print Assumptions C10_table_covariant_under_checked_scaling.
+
+(* what "covariant" means row by row *)
+Theorem C10_meaning_of_features_rel : forall s r' r, frow_scaled s r' r <->
+  r_s r' = r_s r /\
+  (shape_scaled s (r_shape r') (r_shape r) /\
+   volt_decay (r_shape r') = s (volt_decay (r_shape r)) /\ volt_rise (r_shape r') = s (volt_rise (r_shape r)) /\
+   volt_amp (r_shape r') = s (volt_amp (r_shape r))) /\
+  r_burst r' = r_burst r /\ r_is_burst r' = r_is_burst r.
+Proof. intros; reflexivity. Qed.
+Print Assumptions C10_meaning_of_features_rel.
+
+(* the discrete core, under the order / midpoint laws alone *)
+Theorem C10_extrema_invariant : forall s x, scale_on s (x_raw x) ->
+  find_extrema {| x_pos := x_pos x; x_raw := map s (x_raw x); x_padn := x_padn x;
+                  x_boundary := x_boundary x; x_first := x_first x |} = find_extrema x.
+Proof. exact find_extrema_scale. Qed.
+Print Assumptions C10_extrema_invariant.
+
+Theorem C10_midpoints_invariant : forall s sig peaks troughs, scale_on s sig ->
+  find_zerox (map s sig) peaks troughs = find_zerox sig peaks troughs.
+Proof. exact find_zerox_scale. Qed.
+Print Assumptions C10_midpoints_invariant.
+
+(* the hypothesis is decidable on any concrete input ... *)
+Theorem C10_hypothesis_checker_sound : forall s vals, scale_onb s vals = true -> scale_on s vals.
+Proof. exact scale_onb_sound. Qed.
+Print Assumptions C10_hypothesis_checker_sound.
+
+(* ... holds for a power-of-two factor on a concrete 7-cycle signal (both centrings), where the
+   theorem then applies ... *)
+Theorem C10_nonvacuous :
+  c10_hypb Peak ScaleExamples.x4 ScaleExamples.sc_raw ScaleExamples.sc_k 0 ScaleExamples.sc_m = true /\
+  c10_hypb Trough ScaleExamples.x4 ScaleExamples.sc_raw ScaleExamples.sc_kt 0 ScaleExamples.sc_m = true /\
+  c10_hypb Peak ScaleExamples.xsmall ScaleExamples.sc_raw ScaleExamples.sc_k 0 ScaleExamples.sc_m = true.
+Proof.
+  exact (conj ScaleExamples.sc_hyp_x4 (conj ScaleExamples.sc_hyp_x4_trough ScaleExamples.sc_hyp_xsmall)).
+Qed.
+Print Assumptions C10_nonvacuous.
+
+(* ... and fails for overflow, underflow, a shift, and a non-power-of-two factor *)
+Theorem C10_hypothesis_rejects_inexact_scalings :
+  scale_onb (fun x => (x * 0x1p-1060)%float) ScaleExamples.sc_raw = false /\
+  scale_onb (fun x => (x * 0x1p1023)%float) ScaleExamples.sc_raw = false /\
+  scale_onb (fun x => (x + 1)%float) ScaleExamples.sc_raw = false.
+Proof.
+  exact (conj ScaleExamples.sc_hyp_underflow (conj ScaleExamples.sc_hyp_overflow ScaleExamples.sc_hyp_shift)).
+Qed.
+Print Assumptions C10_hypothesis_rejects_inexact_scalings.
